@@ -502,6 +502,12 @@ pub fn arith_case(hid: Hid, hs: &[u32], c: u64) -> Vec<Viol> {
                 if k.lifetime == 0 {
                     v.push(Viol::new("C13:exhausted-early:sum>=64", format!("heights {:?} counter {} reports lifetime 0", hs, c)));
                 }
+                // remaining signatures: exact where a u64 can hold the value, saturated otherwise
+                let want_life: u64 = if total >= 66 { u64::MAX } else { ((1u128 << total) - c as u128).min(u64::MAX as u128) as u64 };
+                if k.lifetime != want_life {
+                    v.push(Viol::new("C13:lifetime:sum>=64", format!("heights {:?} counter {}: lifetime {} != min(leaves - counter, 2^64-1) = {}", hs, c, k.lifetime, want_life)));
+                    v.push(Viol::new("C05:accounting:lifetime", format!("heights {:?} counter {}: lifetime {} != {}", hs, c, k.lifetime, want_life)));
+                }
                 if c < u64::MAX && k.successor != m.make_blob(c + 1, &params, &seed) {
                     v.push(Viol::new("C13:exhausted-early:sum>=64", format!("heights {:?} counter {}: successor is not counter+1", hs, c)));
                 }
@@ -687,5 +693,6 @@ pub fn run_c05(ctx: &Ctx) -> (&'static str, Map<String, Value>) {
     let mut m = crate::props_life::coverage(ctx, &agg, &labels, "stateright BFS over whole key lifetimes on the real code (state = persisted key blob + ghost + budget; get_lifetime and the successor blob compared with the model in every state), plus the pure accounting sweep below", true);
     m.insert("pure_accounting".into(), Value::Object(arith_coverage(&st, ctx.tier.thorough())));
     ctx.assume("'parameter bytes cleared' is read as: the parameter area of the wiped key decodes to an empty list (0xff filler)");
+    crate::props_build::fv_cross_or_exit(ctx, &mut m);
     ("model_checking", m)
 }
